@@ -11,6 +11,11 @@ JSON program:
         | ["PQ", b, clock, quant, phase] Routine(body b).play(clock, [quant, phase]) | ["CP", b, i, quant] clocks[i].play(Routine, quant)
         | ["sch", clock, q] clock.sched(q, function logging its logical time) | ["scha", i, q] clocks[i].sched_abs(clocks[i].beats + q, function)
         | ["newc", q] TempoClock(q) created now: its beats, next_bar()
+      | ["raise", kind]  kind = "V" ValueError | "S" StopStream | "K" KeyError | "R" RuntimeError  (the routine dies there)
+      | not in the Coq model (NRT vs NRT vs RT only): ["stop", b] | ["reset", b] | ["replay", b] (reset then play(None, 0))
+        | ["play2", b] (play() the latest instance of body b once more) on the latest instance of body b;
+        ["cbs"] logs SystemClock.beats/seconds, the routine's own clock.beats/seconds, current_tt._seconds (all relative to
+        the start) and whether main.elapsed_time() >= the logical time (a task never runs early)
       | ["W", c] | ["sig", c] | ["test", c, bool] | ["fget", f] | ["fset", f, v] | ["pause", b] | ["resume", b] | ["R"]
   elem, lat, clock, q as in c05_kscript.py.
 The whole program is Routine(body 0).play(SystemClock); the root creates the TempoClocks when it starts.
@@ -29,7 +34,7 @@ import c05_kscript as K5                       # initialises sc3 in SC3_MODE (an
 from c05_kscript import fr, num, lat_of, parse_packet, msg_id, merge, MODE
 
 from sc3.base.main import main
-from sc3.base.stream import Routine, Condition, FlowVar
+from sc3.base.stream import Routine, Condition, FlowVar, StopStream
 from sc3.base.clock import SystemClock, AppClock, TempoClock
 from sc3.base.netaddr import NetAddr
 import sc3.base.builtins as bi
@@ -48,15 +53,28 @@ REQS = {
     7: (lambda: bi.rrand(0.0, 4.0), lambda R: 0.0 + R.random() * (4.0 - 0.0)),
     8: (lambda: bi.exprand(1.0, 2.0), lambda R: 1.0 * math.exp(math.log(2.0 / 1.0) * R.random())),
     9: (lambda: bi.bilinrand(6), lambda R: (lambda a, b: a - b)(R.randrange(0, 6, 1), R.randrange(0, 6, 1))),
+    # explicit zeros, empty ranges, one-element collections, descending ranges
+    10: (lambda: bi.rand(0), lambda R: 0),
+    11: (lambda: bi.rrand(0, 0), lambda R: 0),
+    12: (lambda: bi.rrand(5, 5), lambda R: 5),
+    13: (lambda: bi.choice([42]), lambda R: R.choice([42])),
+    14: (lambda: bi.rand(0.0), lambda R: R.random() * 0.0),
+    15: (lambda: bi.rand2(0), lambda R: R.randint(0, 0)),
+    16: (lambda: bi.coin(0.0), lambda R: R.random() < 0.0),
+    17: (lambda: bi.rand(-3), lambda R: R.randrange(0, -3, -1)),
+    18: (lambda: bi.rrand(7, 3), lambda R: R.randrange(7, 3, -1)),
+    19: (lambda: bi.rand(1), lambda R: R.randrange(0, 1, 1)),
+    20: (lambda: bi.coin(1.0), lambda R: R.random() < 1.0),
 }
 
 
 def enc(v):
+    """exact, type-tagged: bool -> 0/1, int -> 4n+2 (so that 0 and 0.0 and False differ), float -> its bits * 4 + 3"""
     if isinstance(v, bool):
         return int(v)
     if isinstance(v, int):
-        return v
-    return struct.unpack('>q', struct.pack('>d', float(v)))[0]
+        return 4 * v + 2
+    return 4 * struct.unpack('>q', struct.pack('>d', float(v)))[0] + 3
 
 
 def reference(seed, reqs):
@@ -81,6 +99,7 @@ class XRun:
         self.latest = {}            # body -> rid
         self.clocks = []
         self.extra_clocks = []
+        self.has_tempo_change = any(a[0] == 'T' for b_ in prog['bodies'] for a in b_)
         self.nfun = {}
         self.conds = [Condition() for _ in range(prog['nconds'])]
         self.flows = [FlowVar() for _ in range(prog['nflows'])]
@@ -254,13 +273,32 @@ class XRun:
             except Exception:
                 return False
             return True
-        if kind in ('pause', 'resume'):
+        if kind == 'cbs':
+            lt = main.current_tt._seconds
+            vals = [SystemClock.beats - self.t0, SystemClock.seconds - self.t0, cclk.seconds - self.t0, lt - self.t0]
+            if cclk is not SystemClock:
+                vals.append(cclk.beats)
+            self.qlog(rid, k, 'cbs', *vals)
+            if self.mode == 'rt' and not self.has_tempo_change:
+                # a lower bound on physical progress only: the task's time has come
+                self.qlog(rid, k, 'not-early', bool(K5._jit.elapsed() >= lt))
+            return True
+        if kind in ('pause', 'resume', 'stop', 'reset', 'replay', 'play2'):
             t = self.latest.get(a[1])
             if t is None:
                 return True
             try:
                 if kind == 'pause':
                     self.routs[t].pause()
+                elif kind == 'stop':
+                    self.routs[t].stop()
+                elif kind == 'reset':
+                    self.routs[t].reset()
+                elif kind == 'replay':
+                    self.routs[t].reset()
+                    self.routs[t].play(None, 0)
+                elif kind == 'play2':
+                    self.routs[t].play(None, 0)
                 else:
                     self.routs[t].resume(None, 0)
             except Exception:       # RoutineException: cannot be paused within itself
@@ -369,6 +407,9 @@ class XRun:
                         run.on_resume(rid, k, clock)
                     elif kind == 'R':
                         break
+                    elif kind == 'raise':
+                        run.events.append(['end', rid, k, True])
+                        raise {'V': ValueError, 'S': StopStream, 'K': KeyError, 'R': RuntimeError}[a[1]]('script raise')
                     elif kind == 'W':
                         if a[1] >= len(run.conds):
                             raise Script()
@@ -446,7 +487,21 @@ def run_nrt(prog):
     if ok_raw:
         for b, ch in zip(lst, chunks):
             sc.append(merge(b, parse_packet(ch)))
-    return run.result({'score': sc, 'raw_ok': ok_raw, 'elapsed': fr(main.elapsed_time()),
+    post = {'current_is_main': main.current_tt is main.main_tt, 'no_parent_left': all(r.parent is None for r in run.routs),
+            'none_running': not any(r.state == r.State.Running for r in run.routs)}
+    # two sites: the time of every (nested) bundle in the list view against the timetag in the binary form
+    twosite = []
+
+    def walk(node, where):
+        if node[0] != 'b':
+            return
+        if node[2] is None or int(Fraction(node[2]) * (1 << 32)) != node[3]:
+            twosite.append('%s: list view time %s, timetag in the bytes %s' % (where, node[2], node[3]))
+        for j, sub in enumerate(node[4]):
+            walk(sub, where + '.%d' % j)
+    for i, node in enumerate(sc):
+        walk(node, 'score entry %d' % i)
+    return run.result({'score': sc, 'twosite': twosite[:5], 'raw_ok': ok_raw, 'elapsed': fr(main.elapsed_time()), 'post': post,
                        'raw_sha1': hashlib.sha1(raw).hexdigest(), 'raw_len': len(raw),
                        'list_repr_sha1': hashlib.sha1(repr(lst).encode()).hexdigest(), 'completed': True})
 
@@ -502,7 +557,16 @@ def run_rt(prog, delay=None):
         SystemClock.clear()
     for c in run.clocks + run.extra_clocks:
         c.stop()
-    return run.result({'schedule': run.schedule, 'completed': done, 'offset': str(SystemClock._elapsed_osc_offset)})
+    # what the NEXT unrelated operation (the main thread) finds: no flag left set, the main thread's logical time refreshes
+    with run.lock:
+        before = K5._jit.elapsed()
+        v1 = main.main_tt._seconds
+        v2 = main.main_tt._seconds
+        post = {'current_is_main': main.current_tt is main.main_tt, 'in_awake_call': bool(main._in_awake_call),
+                'no_parent_left': all(r.parent is None for r in run.routs),
+                'none_running': not any(r.state == r.State.Running for r in run.routs),
+                'main_time_refreshes': bool(v1 >= before and v2 >= v1)}
+    return run.result({'schedule': run.schedule, 'completed': done, 'offset': str(SystemClock._elapsed_osc_offset), 'post': post})
 
 
 def main_():
